@@ -338,7 +338,13 @@ def stepLine (s : St) (tg : Tags) (ws : List String) : Option (St × String × T
   -- Server::clear() outside run()
   | ["clear"] => let s' := if s.pc = .idle then clearAll s else s; some (s', out s' "ok", tg)
   -- pair / listen / connect whose socket() fails: null result, nothing changes
-  | ["failmk", k] => if k == "pair" || k == "listen" || k == "connect" then some (s, out s "ok", tg) else none
+  | ["failmk", k] =>
+    if ["pair", "listen", "connect", "bind", "listencall", "connectcall", "pairopt"].contains k then
+      some (s, out s "ok", tg)      -- Move.failCreate: the state does not change
+    else none
+  -- the connect event of establisher i will end in onAbolished: a socket option cannot be applied (Server.cpp 396-400); the same
+  -- transition as a failed connect (Poll::remove, onAbolished, the establisher stays)
+  | ["ofail", i] => do let s' := envStep s (.connFail (← i.toNat?)); pure (s', out s' "ok", tg)
   -- socket options: no effect on the event loop
   | ["opt", k, v] => do
     let _ ← v.toNat?
